@@ -1,12 +1,22 @@
 // C06 — type registry hands out unique, stable, correctly described types.
 // The registry (mptcore/types/type_traits.c) is file-static, append-only and
-// lazily initialised, so every history runs in its own forked child
-// (mc::in_child).  The child executes the whole history on the real registry
-// next to a reference table, runs the full lookup sweep (all ids 0..0x1100
-// through mpt_type_traits / mpt_interface_traits / mpt_metatype_traits, all
-// names through mpt_named_traits / mpt_alias_typeid, the stateless id helpers)
-// and returns "canonical state + counters + first violation" to the parent,
-// which does the BFS bookkeeping (dedupe on the canonical state).
+// lazily initialised, so no two histories may share a process.  Exploration is
+// a level-synchronous BFS over histories [mode, op1, op2, ...]:
+//   * the worker (parent) only does bookkeeping: dedupe on the canonical state
+//     string, counters, violations;
+//   * for every new state it forks an "expander" (up to MC_WORKERS at a time)
+//     that replays the history once on the real registry next to a reference
+//     table and then forks one grandchild per letter of the alphabet; the
+//     grandchild runs that letter plus the full lookup sweep (all ids
+//     0..0x1100 through mpt_type_traits / mpt_interface_traits /
+//     mpt_metatype_traits, all names through mpt_named_traits /
+//     mpt_alias_typeid, the stateless id helpers) and reports
+//     "canonical state + counters of the last step + violations";
+//   * mode cold = no lookup before the last step's sweep (lazy initialisation
+//     happens inside the registrations), warm = full sweep before the first
+//     and after every step, cold/names-first = cold with names looked up
+//     before ids.
+// Replay runs the whole history in one child (same code path, run_history).
 #include <cerrno>
 #include <cstdlib>
 #include <sys/uio.h>
@@ -26,7 +36,7 @@
 
 using namespace mc;
 const char *mc_id = "C06";
-const char *mc_rule = "history BFS, one forked child per history (cold = registrations before any lookup, warm = full lookup sweep before the first and after every step): "
+const char *mc_rule = "history BFS with dedupe on (registrations per kind, name sets), one forked process per history (cold = registrations before any lookup, warm = full lookup sweep before the first and after every step, names-first = cold with name lookups before id lookups): "
                       "registrations of basic sizes / generic traits / named+unnamed interfaces / named+unnamed metatypes incl. fill-to-chunk-boundary and fill-to-capacity macro steps, "
                       "then all ids 0..0x1100 and all names looked up against a reference table; "
                       "nontrivial = executed histories whose last step crosses a 30-entry chunk boundary, takes the last id of a range, is refused for exhaustion, or is refused for a duplicate / too short name";
@@ -97,6 +107,12 @@ struct Entry {
 	const char *cls;                    // signature class
 };
 
+// state-independent defects of the built-in tables are reported once, at the empty history of a job; deeper
+// histories of that job do not report them again (set by the parent before it forks, inherited by the children)
+static std::set<std::string> g_suppress;
+static int g_progress_fd = -1;   // child side: where phase markers go (read by the parent only when the child dies)
+static void progress(const char *m) { if (g_progress_fd >= 0) { ssize_t w = write(g_progress_fd, m, strlen(m)); (void) w; } }
+
 struct Child {
 	bool trace;
 	std::vector<std::string> tr;
@@ -113,6 +129,7 @@ struct Child {
 	bool bad() const { return !viols.empty(); }
 	void fail(const std::string &sig, const std::string &detail)
 	{
+		if (g_suppress.count(sig)) { count("builtin_table_defect_seen_again(reported at the empty history)"); return; }
 		for (auto &v : viols) if (v.first == sig) return;
 		if (viols.size() < 12) viols.push_back(std::make_pair(sig, detail));
 	}
@@ -313,6 +330,7 @@ struct Child {
 	}
 	bool apply(int op)
 	{
+		progress("@op\n");
 		lastflags = 0;
 		asan_error();
 		bool ok = true;
@@ -357,8 +375,10 @@ struct Child {
 	}
 	bool lookup_name(const char *buf, int len, uintptr_t want, const char *mode, const std::string &cls)
 	{
+		asan_error();
 		const mpt::named_traits *nt = mpt::mpt_named_traits(buf, len);
 		count("lookups_by_name");
+		if (asan_error()) { fail("mpt_named_traits|" + cls + "|" + mode + "|asan", fmt("mpt_named_traits(\"%s\", %d) made AddressSanitizer report an invalid memory access", buf, len)); return false; }
 		uintptr_t got = nt ? nt->type : 0;
 		if (got == want) return true;
 		std::string what = fmt("mpt_named_traits(\"%s\", %d)", buf, len);
@@ -369,6 +389,7 @@ struct Child {
 	}
 	void sweep(const char *when)
 	{
+		progress("@sweep\n");
 		asan_error();
 		if (names_first) { sweep_names(); sweep_ids(when); }
 		else { sweep_ids(when); sweep_names(); }
@@ -384,6 +405,11 @@ struct Child {
 			const mpt::named_traits *it = mpt::mpt_interface_traits(id);
 			const mpt::named_traits *mt = mpt::mpt_metatype_traits(id);
 			count("lookups_by_id", 3);
+			if (asan_error()) {
+				// the lookup itself touched memory it does not own: do not trust (or dereference) what it returned
+				fail("sweep|" + rangecls(id) + "-range|by-id|asan", fmt("%s: looking up id 0x%lx made AddressSanitizer report an invalid memory access", when, (long) id));
+				continue;
+			}
 			auto f = tab.find(id);
 			bool isstatic = id >= mpt::TypeIdentifier && id <= mpt::TypeCommand;
 			if (f == tab.end() && !isstatic) {
@@ -560,6 +586,7 @@ static std::string run_history(const Vec &v, bool trace)
 }
 
 static std::string run_history_plain(const Vec &v) { return run_history(v, false); }
+static std::string run_history_trace(const Vec &v) { return run_history(v, true); }
 static void child_signals(int timeout_s)
 {
 	signal(SIGSEGV, SIG_DFL); signal(SIGBUS, SIG_DFL); signal(SIGFPE, SIG_DFL); signal(SIGILL, SIG_DFL); signal(SIGABRT, SIG_DFL);
@@ -583,6 +610,7 @@ static std::string status_marker(int st)
 static std::string expand_node(const Vec &h)
 {
 	prepare_traits();
+	g_progress_fd = -1;          // the prefix is known to replay cleanly; markers come from the grandchildren
 	Child c; c.init_table();
 	bool warm = h[0] == 1; c.names_first = h[0] == 2;
 	if (warm) c.sweep("before the first registration");
@@ -602,6 +630,7 @@ static std::string expand_node(const Vec &h)
 			if (pid == 0) {
 				close(fd[0]);
 				alarm(20);
+				g_progress_fd = fd[1];
 				if (c.apply(op) && !c.bad()) c.sweep(("after " + std::string(opname_[op])).c_str());
 				write_all(fd[1], serialise(c));
 				_exit(0);
@@ -614,7 +643,7 @@ static std::string expand_node(const Vec &h)
 				int st = 0;
 				while (waitpid(pid, &st, 0) < 0 && errno == EINTR) {}
 				std::string m = status_marker(st);
-				if (!m.empty()) res = m;
+				if (!m.empty()) res = m + "\n" + res;
 			}
 			close(fd[0]);
 		}
@@ -633,9 +662,13 @@ static Result parse_result(const Vec &v, const std::string &out)
 	Result res; res.fault = false; res.flags = 0;
 	if (!out.empty() && out[0] == '\x01') {
 		res.fault = true;
-		std::string why = out.substr(1);
+		size_t nl = out.find('\n');
+		std::string why = out.substr(1, nl == std::string::npos ? std::string::npos : nl - 1);
+		size_t lastmark = out.rfind("@");
+		bool insweep = v.size() <= 1 || (lastmark != std::string::npos && out.compare(lastmark, 6, "@sweep") == 0);
 		if (why == "SIG11") why = "SIGSEGV"; else if (why == "SIG8") why = "SIGFPE"; else if (why == "SIG6") why = "SIGABRT"; else if (why == "SIG7") why = "SIGBUS"; else if (why == "EXIT99") why = "ASAN-FATAL";
-		res.viols.push_back(std::make_pair(std::string(v.size() > 1 ? opfunc((int) v.back()) : "sweep") + "|any|any|" + why, "child process running the history ended with " + why));
+		res.viols.push_back(std::make_pair(std::string(insweep ? "sweep" : opfunc((int) v.back())) + "|any|any|" + why,
+		                                   std::string("child process running the history ended with ") + why + (insweep ? " during the lookup sweep" : " inside the last registration")));
 		return res;
 	}
 	size_t p = 0;
@@ -698,6 +731,7 @@ static void run_level(Run &r, const std::vector<Vec> &tasks, std::vector<std::st
 				close(fd[0]);
 				for (auto &s : run) close(s.fd);
 				child_signals(120);
+				g_progress_fd = fd[1];
 				write_all(fd[1], fn(v));
 				_exit(0);
 			}
@@ -722,6 +756,7 @@ static void run_level(Run &r, const std::vector<Vec> &tasks, std::vector<std::st
 			while (waitpid(run[i].pid, &st, 0) < 0 && errno == EINTR) {}
 			outs[run[i].idx] = status_marker(st);
 			if (outs[run[i].idx].empty()) outs[run[i].idx] = run[i].buf;
+			else outs[run[i].idx] += "\n" + run[i].buf;
 			run.erase(run.begin() + i);
 			++done;
 			r.beat();
@@ -760,6 +795,16 @@ void mc_explore(Run &r, const std::string &job)
 		std::vector<std::string> outs;
 		run_level(r, tasks, outs, 1, run_history_plain);
 		if (outs[0] != "\x02" && account(tasks[0], outs[0])) level.push_back(tasks[0]);
+		else if (outs[0] != "\x02") {
+			// only built-in table defects (no registry state involved): report them here, keep exploring without re-reporting them
+			Result res = parse_result(tasks[0], outs[0]);
+			bool only_builtin = !res.viols.empty() && !res.canon.empty();
+			for (auto &x : res.viols) if (x.first.compare(0, 14, "sweep|builtin-")) only_builtin = false;
+			if (only_builtin) {
+				for (auto &x : res.viols) g_suppress.insert(x.first);
+				seen.insert(res.canon); ++r.states; canon_of[tasks[0]] = res.canon; level.push_back(tasks[0]);
+			}
+		}
 		r.count("new_states_at_depth_0", level.size());
 	}
 	for (int d = 1; d <= depth && !level.empty(); ++d) {
@@ -802,9 +847,10 @@ void mc_replay(Run &r, const std::string &job, const Vec &v)
 	if (v.empty()) return;
 	r.enter(v, v.size() > 1 ? opfunc((int) v.back()) : "sweep");
 	r.note("history %s", hist_str(v).c_str());
-	std::string out = in_child([&]() { return run_history(v, true); }, 12);
+	std::vector<std::string> outs;
+	run_level(r, std::vector<Vec>(1, v), outs, 1, run_history_trace);
 	++r.transitions; ++r.executions;
-	Result res = parse_result(v, out);
+	Result res = parse_result(v, outs[0]);
 	for (auto &t : res.tr) r.note("%s", t.c_str());
 	if (!res.canon.empty()) r.note("state %s", res.canon.c_str());
 	for (auto &x : res.viols) r.violation(x.first, hist_str(v) + " :: " + x.second);
